@@ -49,6 +49,9 @@ type Exec struct {
 	dryBase   *State
 	dryFrame  *Frame
 	loopFrameHeaps map[*ssa.BasicBlock][]string
+	funcVals  map[string]*ssa.Function
+	axiomNames []string
+	lemmaErrs  []string
 	initBase  *State
 	immutable map[*ssa.Global]bool
 	inInit    bool
@@ -141,6 +144,7 @@ func (x *Exec) val(st *State, v ssa.Value) Val {
 		t := deref(c.Type())
 		return Val{addr: &Addr{kind: aGlobal, glob: c, rootT: t, typ: t}, typ: c.Type()}
 	case *ssa.Function:
+		x.funcVals[c.String()] = c
 		return Val{T: mkInt(int64(funcID(c))), typ: c.Type(), fn: &FnVal{fn: c}}
 	case *ssa.Builtin:
 		unsupported("builtin %s used as a value", c.Name())
